@@ -116,6 +116,11 @@ theorem fle_eq (a b : F64) : fle a b = (flt a b || feq a b) := by
   simp only [fle, flt, feq]
   cases a.isNaN <;> cases b.isNaN <;> simp
   by_cases h1 : a.key < b.key <;> by_cases h3 : a.key = b.key <;> by_cases h2 : a.key ≤ b.key <;> simp [h1,h2,h3] <;> omega
+theorem feq_symm (a b : F64) : feq a b = feq b a := feq_comm a b
+theorem f_trich' (a b : F64) (ha : a.isNaN = false) (hb : b.isNaN = false) : exactlyOne (flt a b) (feq b a) (flt b a) = true := by
+  rw [feq_symm]; exact f_trich a b ha hb
+theorem fle_eq' (a b : F64) : fle a b = (flt a b || feq b a) := by
+  rw [feq_symm]; exact fle_eq a b
 theorem bytesLe_eq (a b : Bytes) : bytesLe a b = (bytesLt a b || a == b) := by
   have e : (a == b) = decide (bytesCompare a b = 0) := by
     by_cases h : a = b <;> simp [h, bytesCompare_eq_zero]
